@@ -37,7 +37,13 @@ A_BIG = ["[C]", "[=C]", "[N]", "[=O]", "[Branch1]", "[Ring1]", "[#Branch1]", "[=
 # rings competing for the same valences from both directions (a ring queued inside a branch targets the branch's parent,
 # which then closes its own ring): the shortest strings where clipping at *both* ends matters have 8 symbols
 A_CONT = ["[C]", "[=C]", "[Branch1]", "[Ring1]", "[=Ring1]", "[#Ring1]"]
-ALPHABETS = {"contention": A_CONT, "core": A_CORE, "stereo": A_STEREO, "state": A_STATE, "outside": A_OUTSIDE, "deep": A_BIG}
+# deeper ring contention (the shortest strings in which a ring landing on an existing bond, or a second ring on the same pair,
+# changes what a *later* ring at that atom may still take have 10-11 symbols); only strings starting with an atom are enumerated
+A_RC1 = ["[C]", "[Branch1]", "[Ring1]", "[Ring2]"]
+A_RC2 = ["[C]", "[Branch1]", "[Ring1]", "[#Ring1]"]
+A_RC3 = ["[C]", "[Branch1]", "[Ring1]", "[=Ring1]"]
+ATOM_FIRST = ("rc1", "rc2", "rc3")
+ALPHABETS = {"rc1": A_RC1, "rc2": A_RC2, "rc3": A_RC3, "contention": A_CONT, "core": A_CORE, "stereo": A_STEREO, "state": A_STATE, "outside": A_OUTSIDE, "deep": A_BIG}
 
 INDEX_HEADS = ["[Ring1]", "[Ring2]", "[Ring3]", "[Branch1]", "[=Branch2]", "[#Branch3]"]
 INDEX_DIGITS = misc.INDEX + ["[F]", "[nop]"]
@@ -53,6 +59,7 @@ def plan(tier, seed):
         grid += [("state", "default", 5), ("state", "hypervalent", 4), ("state", "mix", 4), ("state", "octet_rule", 4)]
         grid += [("outside", "default", 5), ("outside", "zero", 4)]
         grid += [("deep", "default", 8), ("deep", "big", 7), ("contention", "default", 9), ("contention", "hypervalent", 8)]
+        grid += [("rc1", "default", 12), ("rc2", "default", 12), ("rc3", "default", 12), ("rc1", "hypervalent", 11)]
     else:
         grid += [("core", "default", 6)]
         grid += [("core", t, 5) for t in tables.ALL if t != "default"]
@@ -60,6 +67,7 @@ def plan(tier, seed):
         grid += [("state", "default", 4), ("state", "mix", 3)]
         grid += [("outside", "default", 4)]
         grid += [("deep", "default", 7), ("contention", "default", 8)]
+        grid += [("rc1", "default", 11), ("rc2", "default", 11), ("rc3", "default", 10)]
     # rotating extra scope chosen by the seed (reported; the core scopes above never depend on the seed)
     extras = [("stereo", "mix", 4), ("state", "big", 3), ("outside", "octet_rule", 3), ("deep", "hypervalent", 6),
               ("core", "big", 5)]
@@ -69,8 +77,11 @@ def plan(tier, seed):
         name = "%s/%s/L%d" % (an, tn, L)
         A = ALPHABETS[an]
         scopes.append({"name": name, "alphabet": A, "table": tn, "bound_L": L,
-                       "tree_size": E1.tree_size(len(A), L)})
-        for sh in E1.shard_prefixes(A, L, 2):
+                       "tree_size": E1.tree_size(len(A), L) if an not in ATOM_FIRST else len(A) ** (L - 1) * len(A) // (len(A) - 1),
+                       **({"restricted_to": "strings that start with " + A[0]} if an in ATOM_FIRST else {})})
+        for sh in E1.shard_prefixes(A, L, 2 if an not in ATOM_FIRST else 3):
+            if an in ATOM_FIRST and not (sh[0] == "sub" and sh[1][0] == 0):
+                continue        # strings starting with the atom symbol only (a leading ring / branch symbol is skipped in state 0)
             tasks.append((name, ("strings", an, tn, L, sh)))
     for tn in (("default", "mix") if not thorough else tables.ALL):
         name = "index-context/%s" % tn
